@@ -110,7 +110,8 @@ PROPS = {
             "BPT.Props.C02.items_eq_abs", "BPT.Props.C02.items_strictly_ascending",
             "BPT.Props.C02.keys_eq", "BPT.Props.C02.values_eq", "BPT.Props.C02.first_eq", "BPT.Props.C02.last_eq",
             "BPT.Props.C02.items_pair_current", "BPT.Props.C02.exhausted_stays_none", "BPT.Props.C02.none_means_exhausted",
-            "BPT.Props.C02.iterators_independent",
+            "BPT.Props.C02.iterators_independent", "BPT.Props.C02.items_fast_eq_abs",
+            "BPT.Rust.fastNext_pos", "BPT.Rust.fastDrain_pos", "BPT.Rust.view_itemsFast",
             "BPT.Rust.itemNext_pos", "BPT.Rust.drain_pos", "BPT.Rust.view_items", "BPT.Rust.view_chain", "BPT.Rust.view_embeds",
         ],
         "ties": ["BPT.Tie.no_interior_mutability", "BPT.Tie.rust_null_node"],
@@ -119,7 +120,6 @@ PROPS = {
              "quick": {"cases": 60, "len": 150}, "thorough": {"cases": 2000, "len": 200}},
         ],
         "nontrivial": "a case is non-trivial when the tree reached a branch root and two interleaved iterators were driven by a generated schedule; distinct = distinct op-line sequences",
-        "trusted_extra": ["items_fast() (FastItemIterator) is covered by the correspondence run and the oracle only; its theorem is not proved yet"],
     },
     "C04": {
         "title": "Rust tree stays a valid, balanced B+ tree after every mutation",
